@@ -348,10 +348,13 @@ def checkpoint(det, how):
     return det
 
 
-def run_two_pass(loads, law, second=True, peek="none", ckpt="none"):
+def run_two_pass(loads, law, second=True, peek="none", ckpt="none", loads_second=None, rec=None):
     """loads: 1-D float array (single point) or Series (load_step, node_id).
-    peek: the user looks at recorder.collective before the first pass and / or between the passes."""
-    rec = FKMNonlinearRecorder()
+    peek: the user looks at recorder.collective before the first pass and / or between the passes.
+    loads_second: what the second pass is fed (default: the same object as the first pass).
+    rec: a recorder that already served another detector."""
+    rec = FKMNonlinearRecorder() if rec is None else rec
+    loads_first = loads
     try:
         det = FKMNonlinearDetector(recorder=rec, notch_approximation_law=law)
         if peek in ("before", "both"):
@@ -367,14 +370,14 @@ def run_two_pass(loads, law, second=True, peek="none", ckpt="none"):
             # to the user and continues on a copy): the copy is what the caller evaluates, the original runs first
             twin = checkpoint(det, "deepcopy")
             if second:
-                det.process_hcm_second(loads)
+                det.process_hcm_second(loads if loads_second is None else loads_second)
             det = twin
             rec = det.recorder
         elif ckpt != "none":
             det = checkpoint(det, ckpt)
             rec = det.recorder
         if second:
-            det.process_hcm_second(loads)
+            det.process_hcm_second(loads if loads_second is None else loads_second)
     except Exception as e:    # noqa
         raise RealCodeError("process_hcm", e)
     return det, rec, first_rows
@@ -445,6 +448,11 @@ def generate(prop, rng, tier):
         if rng.random() < 0.3:
             # J3 twin: interior-only refinement, compared per pass with the base
             tr["twin"] = refine(rng, lv, junction=False, density=rng.choice([0.3, 0.7]))
+        elif rng.random() < 0.25:
+            # the two passes are fed different recordings of the same repeated sequence (the raw signal once, a
+            # thinned or refined one the other time): another refinement incl. the junction, or the reversals only
+            tr["twin2"] = refine(rng, lv, junction=True, density=rng.choice([0.3, 0.7])) if rng.random() < 0.6 else "reversals"
+            tr["shared_recorder"] = rng.random() < 0.5
         elif rng.random() < 0.3:
             # the same history on a batched replica (several proportional points at once):
             # the junction code has a branch of its own for Series input
@@ -711,6 +719,71 @@ def exec_c04(trace, out, log):
                     break
         else:
             out.count("skipped:twin_not_a_refinement")
+    # J1 with two recordings of the same repeated sequence, one per pass (and one recorder serving both histories)
+    tw2 = trace.get("twin2")
+    if tw2 and not batch:
+        if tw2 == "reversals":
+            tw2 = _reversals_in_sequence_order(lv)
+        tw2 = [int(x) for x in tw2]
+        if len(set(tw2)) < 2 or not _same_periodic_reversals(lv, tw2):
+            out.count("skipped:twin2_not_the_same_repeated_sequence")
+            return
+        if lv[0] == lv[-1] or tw2[0] == tw2[-1]:
+            # a plateau across the junction: such a recording holds the junction reversal twice, the other one once -
+            # they are not recordings of the same stretch of the repeated sequence
+            out.count("skipped:twin2_other_stretch_of_the_sequence")
+            return
+        shared = FKMNonlinearRecorder() if trace.get("shared_recorder") else None
+        n_before = 0
+        kept = []
+        for first, secnd, tag in ((lv, tw2, "base-then-twin"), (tw2, lv, "twin-then-base")):
+            if per.is_periodic_reversal_last(first) and not turn_at_zero_junction(first):
+                out.count("skipped:mixed_passes_first_defers_a_true_reversal")      # the configuration of F-C04-4
+                continue
+            l1 = np.array([x * step for x in first], dtype=np.float64)
+            l2 = np.array([x * step for x in secnd], dtype=np.float64)
+            detm, recm, _ = run_two_pass(l1, law, loads_second=l2, rec=shared)
+            rows_all = collective_rows(recm)
+            rowsm = rows_all[n_before:]
+            if shared is not None:
+                # the recorder keeps the rows of the history before; they must still be what they were
+                if [(_r["loads_min"], _r["loads_max"], _r["run_index"]) for _r in rows_all[:n_before]] != kept:
+                    out.violate("J1-second-pass-is-periodic-rainflow", "shared-recorder:earlier-rows-changed",
+                                {"levels": first, "levels_second": secnd, "step": step})
+                    return
+                n_before = len(rows_all)
+            kept = [(_r["loads_min"], _r["loads_max"], _r["run_index"]) for _r in rows_all]
+            out.steps += 2
+            out.count("history:passes_fed_different_recordings")
+            if shared is not None:
+                out.count("history:one_recorder_two_detectors")
+            log.add("mixed", tag, [[r[k] for k in ("loads_min", "loads_max", "is_closed_hysteresis", "run_index")] for r in rowsm])
+            gotm = Counter(_pairs(rowsm, run=2))
+            if gotm != want:
+                out.violate("J1-second-pass-is-periodic-rainflow", "second-pass:" + tag + (":shared-recorder" if shared is not None else ""),
+                            {"levels_first": first, "levels_second": secnd, "step": step,
+                             "missing_": sorted((want - gotm).elements()), "surplus_": sorted((gotm - want).elements())})
+                return
+            if any(r["run_index"] not in (1, 2) for r in rowsm):
+                out.violate("J2-memory3-only-first-pass", "run-index:" + tag, {"levels_first": first, "levels_second": secnd,
+                                                                               "run_index": sorted({int(r["run_index"]) for r in rowsm})})
+                return
+
+
+def _reversals_in_sequence_order(lv):
+    """The reversals of the repeated sequence, in the order in which the sequence visits them."""
+    comp = [x for i, x in enumerate(lv) if i == 0 or lv[i - 1] != x]
+    while len(comp) > 1 and comp[0] == comp[-1]:
+        comp.pop()
+    m = len(comp)
+    return [comp[i] for i in range(m) if (comp[i] - comp[i - 1]) * (comp[(i + 1) % m] - comp[i]) < 0]
+
+
+def _same_periodic_reversals(a, b):
+    ra, rb = _reversals_in_sequence_order(a), _reversals_in_sequence_order(b)
+    if len(ra) != len(rb) or not ra:
+        return False
+    return any(ra == rb[k:] + rb[:k] for k in range(len(rb)))
 
 
 def _same_interior_reversals(a, b):
